@@ -464,6 +464,7 @@ def check(model: Model, run: Run) -> None:
                 if not ok:
                     run.fail(Finding("I5-choices-from-own-options", fq, norm(n), f"choice lookup `{norm(n)}` is not rooted at the options handed in by the session", model.loc(fi.module, n)))
     run.floor("options arguments", n_args, 30)
+    registrations_only_by_register(model, run)
     # ---- I6 registration -----------------------------------------------------------------------------------
     base = model.cls(f"{SESSION_MOD}.LDAPSession")
     regs = [fi for n, fi in base.methods.items() if n.startswith("register_")]
@@ -486,6 +487,46 @@ def check(model: Model, run: Run) -> None:
         run.ob("I6-registration-guarded", ok, {"method": fi.name})
         if not ok:
             run.fail(Finding("I6-registration-guarded", fi.qualname, why[:80], f"{fi.name}: {why}", model.loc(SESSION_MOD, fi.node)))
+
+
+def registrations_only_by_register(model: Model, run: Run, rule: str = "I9-choices-change-only-by-registration") -> None:
+    """I9: the lists of known custom types (`<options>.choices`) are changed by the register_* methods and by nothing else.  A
+    session that learns a type any other way decodes bytes it has no registration for - "exactly that session", and only by
+    registering, is the contract."""
+    MUT = {"append", "extend", "insert", "remove", "pop", "clear", "sort", "reverse", "__iadd__", "__setitem__", "__delitem__"}
+    n = 0
+    for fq, fi in sorted(model.functions.items()):
+        if isinstance(fi.node, ast.Lambda):
+            continue
+        aliases = set()
+        for a in walk_no_nested(fi.node):
+            if isinstance(a, (ast.Assign, ast.AnnAssign)) and a.value is not None and isinstance(a.value, ast.Attribute) and a.value.attr == "choices":
+                for t_ in (a.targets if isinstance(a, ast.Assign) else [a.target]):
+                    if isinstance(t_, ast.Name):
+                        aliases.add(t_.id)
+
+        def is_choices(e: ast.expr) -> bool:
+            return (isinstance(e, ast.Attribute) and e.attr == "choices") or (isinstance(e, ast.Name) and e.id in aliases)
+        for x in walk_no_nested(fi.node):
+            hit = None
+            if isinstance(x, ast.Call) and isinstance(x.func, ast.Attribute) and x.func.attr in MUT and is_choices(x.func.value):
+                hit = x
+            elif isinstance(x, ast.AugAssign) and is_choices(x.target):
+                hit = x
+            elif isinstance(x, (ast.Assign, ast.Delete)):
+                for t_ in x.targets:
+                    if (isinstance(t_, ast.Subscript) and is_choices(t_.value)) or (isinstance(t_, ast.Attribute) and t_.attr == "choices" and isinstance(x, ast.Assign)):
+                        hit = x
+            if hit is None:
+                continue
+            n += 1
+            in_ctor = fi.name in ("__init__", "__post_init__") and isinstance(hit, ast.Assign)
+            ok = fi.name.startswith("register_") or in_ctor
+            run.ob(rule, ok, {"function": fq.split("sansldap.")[-1], "construct": norm(hit)[:60]})
+            if not ok:
+                run.fail(Finding(rule, fq, norm(hit)[:80], f"{fq.split('sansldap.')[-1]} changes a list of registered custom types (`{norm(hit)[:60]}`) outside the register_* methods: "
+                                 "the session starts to decode a type nobody registered with it", model.loc(fi.module, hit)))
+    run.floor("mutations of the registered-type lists", n, 3)
 
 
 def parse_results_fresh(model: Model, run: Run, module: str, rule: str, what: str) -> None:
